@@ -11,7 +11,6 @@ Require Import Blots.Peg Blots.gen.Grammar Blots.PrattTypes Blots.Pratt Blots.Pe
 Require Import Blots.proofs.PegGeneric Blots.proofs.PegShape.
 Require Import Blots.Outcome Blots.Program Blots.TextRun.
 Import ListNotations.
-Set Default Timeout 120.
 
 Definition stmt_first_ok (t : tree grule) : Prop :=
   exists first rest, tkids t = first :: rest /\
